@@ -159,6 +159,14 @@ func (fx *FnCtx) errVal(st *State, okCond Term) Term {
 	return e
 }
 
+// errOf: the error a library function returns is a function of its input (usable inside specifications)
+func (fx *FnCtx) errOf(fn string, arg Term, okCond Term) Term {
+	fx.ufun(fn, []string{"String"}, "Iface")
+	fx.s.global(fn+"!ax:"+okCond[:min(len(okCond), 12)], "")
+	e := "(" + fn + " " + arg + ")"
+	return fmt.Sprintf("(ite %s niliface (ite (= %s niliface) (mkiface 1 1) %s))", okCond, e, e)
+}
+
 func init() {
 	externals = map[string]*extEntry{}
 	pure := func(names ...string) {
@@ -189,11 +197,10 @@ func init() {
 			fx.ufun("atoi_val", []string{"String"}, "Int")
 			fx.s.global("isDigits", `(define-fun isDigits ((s String)) Bool (or (= s "") (>= (str.to_int s) 0)))`)
 			s := args[0].t
-			fx.s.assume(st.guard, fmt.Sprintf("(=> (and (isDigits %s) (< 0 (str.len %s)) (<= (str.len %s) 18)) (and (atoi_ok %s) (= (atoi_val %s) (str.to_int %s))))", s, s, s, s, s, s))
-			fx.s.assume(st.guard, fmt.Sprintf("(not (atoi_ok \"\"))"))
+			fx.s.global("atoi!ax", "(assert (forall ((s String)) (! (and (=> (and (isDigits s) (< 0 (str.len s)) (<= (str.len s) 18)) (and (atoi_ok s) (= (atoi_val s) (str.to_int s)))) (<= (- 9223372036854775808) (atoi_val s)) (<= (atoi_val s) 9223372036854775807)) :pattern ((atoi_ok s)) :pattern ((atoi_val s)))))")
+			fx.s.global("atoi!ax2", "(assert (not (atoi_ok \"\")))")
 			v := fx.s.define("atoi", "Int", fmt.Sprintf("(ite (atoi_ok %s) (atoi_val %s) 0)", s, s))
-			fx.s.assume(st.guard, intRange(types.Typ[types.Int], "(atoi_val "+s+")"))
-			return []Val{{t: v}, {t: fx.errVal(st, "(atoi_ok "+s+")")}}
+			return []Val{{t: v}, {t: fx.errOf("atoi_err", s, "(atoi_ok "+s+")")}}
 		}}
 	externals["strconv.ParseInt"] = &extEntry{doc: "ParseInt(s, 10, 32): err == nil iff parseint32_ok(s); then the result fits int32; \"\" is not ok",
 		fn: func(fr *Frame, ins ssa.Instruction, c *ssa.CallCommon, args []Val, st *State) []Val {
@@ -479,6 +486,11 @@ func extFindStringSubmatch(fr *Frame, ins ssa.Instruction, c *ssa.CallCommon, ar
 		fx.s.assume(st.guard, fmt.Sprintf("(= %s (re_tripid_matches %s))", matched, s))
 		fact = implies(matched, fmt.Sprintf("(and (>= (str.len %s) 6) (= %s %s) (= %s (str.substr %s 0 6)) %s)", s, grp(0), s, grp(1), s, digits(grp(1), 6)))
 	case `([[:alnum:]]{3}?)([SN]?)#EL(.*)`:
+		fx.ufun("re_elev_matches", []string{"String"}, "Bool")
+		for i := 1; i <= 3; i++ {
+			fx.ufun(fmt.Sprintf("re_elev_group%d", i), []string{"String"}, "String")
+		}
+		fx.s.assume(st.guard, fmt.Sprintf("(and (= %s (re_elev_matches %s)) (=> %s (and (= %s (re_elev_group1 %s)) (= %s (re_elev_group2 %s)) (= %s (re_elev_group3 %s)))))", matched, s, matched, grp(1), s, grp(2), s, grp(3), s))
 		alnum := `(re.union (re.range "0" "9") (re.range "a" "z") (re.range "A" "Z"))`
 		fact = implies(matched, fmt.Sprintf("(and (str.contains %s (str.++ %s %s \"#EL\" %s)) (= (str.len %s) 3) (str.in_re %s (re.* %s)) (or (= %s \"\") (= %s \"S\") (= %s \"N\")) (= %s (str.++ %s %s \"#EL\" %s)))",
 			s, grp(1), grp(2), grp(3), grp(1), grp(1), alnum, grp(2), grp(2), grp(2), grp(0), grp(1), grp(2), grp(3)))
